@@ -54,7 +54,7 @@ def multiline_condition(text):
 
 
 LAYOUTS = ["one-line", "args-on-lines", "keyword-form", "keyword-form-lines", "condition-multiline", "comments", "trailing-comma-desc-kw",
-           "no-description", "no-description-kw"]
+           "no-description", "no-description-kw", "break-before-matmul", "break-before-matmul-tight"]
 NO_DESCRIPTION = ("no-description", "no-description-kw")
 
 
@@ -86,6 +86,15 @@ def make_layout(kind):
                     "    %r%s" % (desc, extra),
                     "    # last comment",
                     ")"]
+        if kind in ("break-before-matmul", "break-before-matmul-tight"):
+            # a break before a binary operator; with `@` the continuation line looks like a decorator (with no blank
+            # after the operator it looks exactly like one: finding D28)
+            if " @ " not in text:
+                return ["@icontract.%s(%s, %r%s)" % (deco, lam, desc, extra)]
+            i = text.index(" @ ")
+            op = "@ " if kind == "break-before-matmul" else "@"
+            return ["@icontract.%s(" % deco, "    lambda %s: %s" % (", ".join(params), text[:i]),
+                    "        %s%s," % (op, text[i + 3:]), "    %r%s)" % (desc, extra)]
         if kind == "no-description":
             return ["@icontract.%s(%s%s)" % (deco, lam, extra)]
         if kind == "no-description-kw":
